@@ -17,7 +17,7 @@ ASSUMPTIONS = ['tm_exact oracle (self-validated each shard)',
                'mirror latitudes/longitudes may differ by one unit of the 11-decimal output rounding (1.5e-11 deg)']
 N = {'quick': 1500, 'thorough': 25000}
 SHARDS = {'quick': 16, 'thorough': 32}
-REQUIRED_COUNTERS = ['unjudged_calls_before_a_judged_one', 'across_antimeridian_cases', 'alias_sequences', 'near_axis_cases', 'roundtrip_geo', 'roundtrip_grid', 'mirror', 'standalone', 'standalone_batch_rows']
+REQUIRED_COUNTERS = ['inverse_through_coordinate_class', 'unjudged_calls_before_a_judged_one', 'across_antimeridian_cases', 'alias_sequences', 'near_axis_cases', 'roundtrip_geo', 'roundtrip_grid', 'mirror', 'standalone', 'standalone_batch_rows']
 
 
 def plan(tier, seed):
